@@ -99,7 +99,10 @@ class OggFLACVComment(VCommentDict):
             if page.serial == info.serial:
                 pages.append(page)
                 complete = page.complete or (len(page.packets) > 1)
-        comment = BytesIO(OggPage.to_packets(pages)[0][4:])
+        packets = OggPage.to_packets(pages)
+        if not packets:
+            raise error("Missing metadata packet")
+        comment = BytesIO(packets[0][4:])
         super(OggFLACVComment, self).__init__(comment, framing=False)
 
     def _inject(self, fileobj, padding_func):
